@@ -1333,19 +1333,34 @@ void StructAssignmentManager::process_named_initialization(
     Variable *var, const std::string &var_name, const ASTNode *literal_node,
     const StructDefinition *struct_def) {
 
-    // unsigned型のメンバーに負の値が代入される場合のクランプ用ラムダ
-    auto clamp_unsigned_member = [&var_name](Variable &target, int64_t &value,
-                                             const std::string &member_name,
-                                             const char *context) {
-        if (!target.is_unsigned || value >= 0) {
-            return;
+    // 整数メンバーへ格納する値の調整用ラムダ: unsigned型のメンバーに負の値が
+    // 代入される場合は0にクランプし、その後メンバー（配列メンバーは要素）の
+    // 宣言型に対する型範囲チェックを行う（s.m = v と同じ規則。ポインタ型は
+    // スキップ）
+    auto clamp_and_check_member = [this,
+                                   &var_name](Variable &target, int64_t &value,
+                                              const std::string &member_name,
+                                              const char *context) {
+        if (target.is_unsigned && value < 0) {
+            DEBUG_WARN(VARIABLE,
+                       "Unsigned struct member %s.%s %s negative value (%lld); "
+                       "clamping to 0",
+                       var_name.c_str(), member_name.c_str(), context,
+                       static_cast<long long>(value));
+            value = 0;
         }
-        DEBUG_WARN(VARIABLE,
-                   "Unsigned struct member %s.%s %s negative value (%lld); "
-                   "clamping to 0",
-                   var_name.c_str(), member_name.c_str(), context,
-                   static_cast<long long>(value));
-        value = 0;
+        TypeInfo store_type = target.type;
+        if (target.is_array &&
+            target.array_type_info.base_type != TYPE_UNKNOWN) {
+            store_type = target.array_type_info.base_type;
+        } else if (store_type >= TYPE_ARRAY_BASE) {
+            store_type = static_cast<TypeInfo>(store_type - TYPE_ARRAY_BASE);
+        }
+        if (store_type != TYPE_POINTER && !target.is_pointer) {
+            interpreter_->type_manager_->check_type_range(
+                store_type, value, var_name + "." + member_name,
+                target.is_unsigned);
+        }
     };
 
     debug_msg(DebugMsgId::INTERPRETER_NAMED_STRUCT_LITERAL_INIT,
@@ -1442,9 +1457,9 @@ void StructAssignmentManager::process_named_initialization(
                     int64_t value =
                         interpreter_->expression_evaluator_
                             ->evaluate_expression(array_elements[i].get());
-                    clamp_unsigned_member(struct_member_var, value,
-                                          element_path,
-                                          "initialized with array literal");
+                    clamp_and_check_member(struct_member_var, value,
+                                           element_path,
+                                           "initialized with array literal");
 
                     if (element_var) {
                         element_var->value = value;
@@ -1614,8 +1629,8 @@ void StructAssignmentManager::process_named_initialization(
                 int64_t value =
                     interpreter_->expression_evaluator_->evaluate_expression(
                         member_init->right.get());
-                clamp_unsigned_member(struct_member_var, value, member_name,
-                                      "initialized with literal");
+                clamp_and_check_member(struct_member_var, value, member_name,
+                                       "initialized with literal");
                 struct_member_var.value = value;
                 struct_member_var.is_assigned = true;
 
@@ -1632,19 +1647,34 @@ void StructAssignmentManager::process_positional_initialization(
     Variable *var, const std::string &var_name, const ASTNode *literal_node,
     const StructDefinition *struct_def) {
 
-    // unsigned型のメンバーに負の値が代入される場合のクランプ用ラムダ
-    auto clamp_unsigned_member = [&var_name](Variable &target, int64_t &value,
-                                             const std::string &member_name,
-                                             const char *context) {
-        if (!target.is_unsigned || value >= 0) {
-            return;
+    // 整数メンバーへ格納する値の調整用ラムダ: unsigned型のメンバーに負の値が
+    // 代入される場合は0にクランプし、その後メンバー（配列メンバーは要素）の
+    // 宣言型に対する型範囲チェックを行う（s.m = v と同じ規則。ポインタ型は
+    // スキップ）
+    auto clamp_and_check_member = [this,
+                                   &var_name](Variable &target, int64_t &value,
+                                              const std::string &member_name,
+                                              const char *context) {
+        if (target.is_unsigned && value < 0) {
+            DEBUG_WARN(VARIABLE,
+                       "Unsigned struct member %s.%s %s negative value (%lld); "
+                       "clamping to 0",
+                       var_name.c_str(), member_name.c_str(), context,
+                       static_cast<long long>(value));
+            value = 0;
         }
-        DEBUG_WARN(VARIABLE,
-                   "Unsigned struct member %s.%s %s negative value (%lld); "
-                   "clamping to 0",
-                   var_name.c_str(), member_name.c_str(), context,
-                   static_cast<long long>(value));
-        value = 0;
+        TypeInfo store_type = target.type;
+        if (target.is_array &&
+            target.array_type_info.base_type != TYPE_UNKNOWN) {
+            store_type = target.array_type_info.base_type;
+        } else if (store_type >= TYPE_ARRAY_BASE) {
+            store_type = static_cast<TypeInfo>(store_type - TYPE_ARRAY_BASE);
+        }
+        if (store_type != TYPE_POINTER && !target.is_pointer) {
+            interpreter_->type_manager_->check_type_range(
+                store_type, value, var_name + "." + member_name,
+                target.is_unsigned);
+        }
     };
 
     // 位置ベース初期化: {25, "Bob"}
@@ -1777,9 +1807,9 @@ void StructAssignmentManager::process_positional_initialization(
                                 init_value->arguments[j].get());
                     std::string element_path =
                         member_def.name + "[" + std::to_string(j) + "]";
-                    clamp_unsigned_member(it->second, element_value,
-                                          element_path,
-                                          "initialized with array literal");
+                    clamp_and_check_member(it->second, element_value,
+                                           element_path,
+                                           "initialized with array literal");
                     it->second.array_values.push_back(element_value);
 
                     // 個別要素変数を作成
@@ -1885,8 +1915,8 @@ void StructAssignmentManager::process_positional_initialization(
                         init_value);
                 debug_msg(DebugMsgId::GENERIC_DEBUG,
                           "STRUCT_LITERAL_DEBUG: Numeric initialization: ");
-                clamp_unsigned_member(it->second, value, member_def.name,
-                                      "initialized with literal");
+                clamp_and_check_member(it->second, value, member_def.name,
+                                       "initialized with literal");
                 it->second.value = value;
 
                 // 直接アクセス変数も更新
